@@ -1,6 +1,6 @@
 """Shared by C05 / C06 / C08: option grid of Matrix<Options>, generators of filtered cell complexes and of operation
 scripts, runner (harness -> oracle with verified checkers)."""
-import itertools, os, zlib
+import itertools, os, time, zlib
 from vlib import core
 
 COLTYPES = ["LIST", "SET", "HEAP", "VECTOR", "NAIVE_VECTOR", "SMALL_VECTOR", "UNORDERED_SET", "INTRUSIVE_LIST", "INTRUSIVE_SET"]
@@ -387,8 +387,16 @@ def run_cases(ctx, res, cfgs, scripts_for, build_tag_prefix="pm", per_case=False
             # something crashed or hangs: run every case in its own process so that the failure is attributed to the
             # history that causes it (a corrupted heap otherwise kills a later, innocent case)
             outs = []
+            lost = 0.0          # seconds gone into dying processes of this option set (same idea as core.DEATH_BUDGET_S)
             for (name, lines) in sc:
+                if lost > 300:
+                    crashed[name] = (124, "skipped: 300 s have gone into dying processes of this option set")
+                    outs.append("> CASE %s\n" % name)
+                    continue
+                t1 = time.time()
                 rc1, o1, e1 = ctx.run_bin(bins[c.tag], "\n".join(lines) + "\n", timeout=900, cpu=15)
+                if rc1 != 0:
+                    lost += time.time() - t1
                 if rc1 != 0:
                     crashed[name] = (rc1, (e1 or o1)[-300:])
                     outs.append("> CASE %s\n" % name)
